@@ -176,7 +176,8 @@ def _quiet(cfg):
 class Scratch:
     """an initialised alembic environment in a temp dir; options set in memory on the Config"""
 
-    def __init__(self, file_template=None, trunc=None, two_locations=False, recursive=False):
+    def __init__(self, file_template=None, trunc=None, two_locations=False, recursive=False, timezone=None,
+                 sourceless=False, revision_environment=False, hooks=False):
         self.dir = tempfile.mkdtemp(prefix="c17_")
         self.ini = os.path.join(self.dir, "alembic.ini")
         self.scripts = os.path.join(self.dir, "scripts")
@@ -193,6 +194,24 @@ class Scratch:
         self.recursive = bool(recursive)
         if recursive:
             self.cfg.set_main_option("recursive_version_locations", "true")
+        self.timezone = timezone
+        if timezone is not None:
+            self.cfg.set_main_option("timezone", timezone)
+        self.sourceless = bool(sourceless)
+        if sourceless:
+            self.cfg.set_main_option("sourceless", "true")
+        self.revision_environment = bool(revision_environment)
+        if revision_environment:
+            # env.py of the generic template connects to the configured database: an in-memory SQLite
+            self.cfg.set_main_option("revision_environment", "true")
+            self.cfg.set_main_option("sqlalchemy.url", "sqlite://")
+        self.hooks = bool(hooks)
+        if hooks:
+            # a post-write hook that leaves the file alone (what a hook does to the file is the user's program)
+            self.cfg.set_section_option("post_write_hooks", "hooks", "noop")
+            self.cfg.set_section_option("post_write_hooks", "noop.type", "exec")
+            self.cfg.set_section_option("post_write_hooks", "noop.executable", "/bin/true")
+            self.cfg.set_section_option("post_write_hooks", "noop.options", "REVISION_SCRIPT_FILENAME")
         if file_template is not None:
             self.cfg.set_main_option("file_template", file_template.replace("%", "%%"))
         if trunc is not None:
@@ -245,6 +264,23 @@ class Scratch:
         """(normalised version_path or None, normalised locations) as generate_revision compares them"""
         vp = self.version_path(spec)
         return (None if vp is None else os.path.normpath(os.path.abspath(vp))), [os.path.normpath(l) for l in self.locations]
+
+    def tz_ok(self):
+        """does zoneinfo know the configured timezone (as written or upper-cased)?"""
+        if self.timezone is None:
+            return True
+        from zoneinfo import ZoneInfo, ZoneInfoNotFoundError
+        for name in (self.timezone, self.timezone.upper()):
+            try:
+                ZoneInfo(name)
+                return True
+            except (ZoneInfoNotFoundError, ValueError):
+                pass
+        return False
+
+    def options(self):
+        return {"timezone": self.timezone, "sourceless": self.sourceless, "revision_environment": self.revision_environment,
+                "hooks": self.hooks}
 
     def close(self):
         shutil.rmtree(self.dir, ignore_errors=True)
@@ -317,35 +353,40 @@ def run_call(env: Scratch, sd, call, next_id):
         bl = tuple(bl)
     dep = call.get("depends_on")
     res = {}
-    with warnings.catch_warnings(record=True) as wlist:
+    import logging
+    with warnings.catch_warnings(record=True) as wlist, contextlib.redirect_stdout(io.StringIO()):
         warnings.simplefilter("always")
+        logging.disable(logging.CRITICAL)   # env.py (revision_environment) configures logging through fileConfig
         try:
-            if call["kind"] == "generate":
-                rid = call["rev_id"] if call.get("rev_id") is not None else next_id
-                script = sd.generate_revision(
-                    rid, call.get("message"), head=head, splice=call.get("splice", False), branch_labels=bl,
-                    version_path=vp, depends_on=dep,
-                )
-                rm = sd.revision_map
-            elif call["kind"] == "revision":
-                with capture_add_revision() as seen, fixed_rev_ids([next_id]):
-                    script = command.revision(
-                        env.cfg, message=call.get("message"), head=head if head is not None else "head",
-                        splice=call.get("splice", False), branch_label=bl, version_path=vp,
-                        rev_id=call.get("rev_id"), depends_on=dep,
-                    )
-                rm = seen[-1] if seen else None
-            else:
-                with capture_add_revision() as seen, fixed_rev_ids([next_id]):
-                    script = command.merge(
-                        env.cfg, head, message=call.get("message"), branch_label=bl, rev_id=call.get("rev_id"),
-                    )
-                rm = seen[-1] if seen else None
-            res = {"script": script, "rm": rm}
+          with rev_impl.alarm(1.5):          # a repeated revision id can tie the in-memory graph into a cycle
+              if call["kind"] == "generate":
+                  rid = call["rev_id"] if call.get("rev_id") is not None else next_id
+                  script = sd.generate_revision(
+                      rid, call.get("message"), head=head, splice=call.get("splice", False), branch_labels=bl,
+                      version_path=vp, depends_on=dep,
+                  )
+                  rm = sd.revision_map
+              elif call["kind"] == "revision":
+                  with capture_add_revision() as seen, fixed_rev_ids([next_id]):
+                      script = command.revision(
+                          env.cfg, message=call.get("message"), head=head if head is not None else "head",
+                          splice=call.get("splice", False), branch_label=bl, version_path=vp,
+                          rev_id=call.get("rev_id"), depends_on=dep, sql=bool(call.get("sql")),
+                      )
+                  rm = seen[-1] if seen else None
+              else:
+                  with capture_add_revision() as seen, fixed_rev_ids([next_id]):
+                      script = command.merge(
+                          env.cfg, head, message=call.get("message"), branch_label=bl, rev_id=call.get("rev_id"),
+                      )
+                  rm = seen[-1] if seen else None
+              res = {"script": script, "rm": rm}
         except BaseException as e:  # noqa  (SyntaxError etc. from loading the written file)
             if isinstance(e, (KeyboardInterrupt, SystemExit)):
                 raise
             res = {"err": load_error_name(e), "exc": "%s: %s" % (type(e).__name__, str(e)[:200])}
+        finally:
+            logging.disable(logging.NOTSET)
     res["warnings"] = [str(w.message)[:120] for w in wlist]
     res["new_files"] = sorted(env.files() - before)
     return res
